@@ -70,7 +70,14 @@ def install():
         ctx = STATE["ctx"]
         if ctx is not None:
             ctx.mon("M7.tape-post")
-        after = bytes(self.buffer)
+        try:
+            after = bytes(self.buffer)
+        except ValueError:
+            # the writer put something that is not a byte into its buffer (a name character above 255): the monitor must not turn
+            # that into an exception of its own - whatever the tool does with such a buffer is what the workload observes
+            if ctx is not None:
+                ctx.mon("M7.unmonitorable-non-byte-buffer")
+            return r
         w = {"file": describe(coco_file), "show": "add_file(%s, %d bytes)" % (coco_file.name, len(coco_file.data))}
         if after[:n0] != before:
             _v("C09", "tape-append", "EARLIER-BYTES-CHANGED", w)
@@ -138,7 +145,10 @@ def install():
             # the object lives on after a refused addition (add_files stops, the caller may store what did fit): its image must still
             # be a valid filesystem - in particular no provisional allocation marks may stay behind
             if not pre_errs:
-                post_f = bytes(self.buffer)
+                try:
+                    post_f = bytes(self.buffer)
+                except ValueError:
+                    post_f = pre
                 if post_f != pre:
                     errs_f = RD.fsck(post_f)[1]
                     self.__dict__["_v_cache"] = None
@@ -147,7 +157,13 @@ def install():
             raise
         if ctx is not None:
             ctx.mon("M8.disk-post.success")
-        post = bytes(self.buffer)
+        try:
+            post = bytes(self.buffer)
+        except ValueError:
+            if ctx is not None:
+                ctx.mon("M8.unmonitorable-non-byte-buffer")
+            self.__dict__["_v_cache"] = None
+            return r
         files, errs = RD.fsck(post)
         self.__dict__["_v_cache"] = (post, files, errs)
         if pre_errs:
